@@ -1,0 +1,9 @@
+//go:build !verif
+
+package timex
+
+import "time"
+
+func verifClock() (time.Duration, bool) {
+	return 0, false
+}
